@@ -12,9 +12,10 @@ MODULE = "PotasscoVerif.Props.C13"
 THEOREMS = ["PotasscoVerif.C13.C13_cmdstring", "PotasscoVerif.C13.C13_cmdstring_parse", "PotasscoVerif.C13.C13_terminator", "PotasscoVerif.C13.C13_long_eq",
             "PotasscoVerif.C13.C13_long_sep", "PotasscoVerif.C13.C13_long_implicit", "PotasscoVerif.C13.C13_short_attached", "PotasscoVerif.C13.C13_short_sep",
             "PotasscoVerif.C13.C13_flag_group", "PotasscoVerif.C13.C13_long_neg", "PotasscoVerif.C13.C13_long_unknown", "PotasscoVerif.C13.handleShort_group_then",
-            "PotasscoVerif.C13.C13_argv", "PotasscoVerif.C13.C13_argv_loop", "PotasscoVerif.C13.C13_cfg"]
-EXTRA_MODULES = ["PotasscoVerif.Props.C13b", "PotasscoVerif.Props.C13c"]
-PARTIAL = {"argc/argv rewriting": "C13_argv states what is left as a token list; that the C++ entry point rewrites argc/argv to exactly that list is decided by the correspondence and the intended-list oracle"}
+            "PotasscoVerif.C13.C13_argv", "PotasscoVerif.C13.C13_argv_loop", "PotasscoVerif.C13.C13_cfg",
+            "PotasscoVerif.C13.C13_remaining_sublist", "PotasscoVerif.C13.C13_cmdline", "PotasscoVerif.C13.C13_cmdline_in_place"]
+EXTRA_MODULES = ["PotasscoVerif.Props.C13b", "PotasscoVerif.Props.C13c", "PotasscoVerif.Props.C13d"]
+PARTIAL = {}
 BSIZES = (4096,)
 RULE = ("contexts of 2..8 options (required-argument / implicit-value / flag kinds, optional one-character alias, negatable flags, names sharing prefixes); intended lists of 0..8 "
         "occurrences spelled as --name=value, --name value, unique prefix, -a value, -avalue, grouped flags (also ending in an alias that takes a value: -hvL3, -hvL 3), --no-name, implicit forms, positional and unknown tokens, '--' tail; "
@@ -30,8 +31,12 @@ LEVEL_TEXT = ("C13_cmdstring(_parse): for EVERY token list (any bytes but NUL: b
               "--name=value, --name value, unique prefix, --name (flag/implicit), --no-name (negatable), -avalue, -a value, grouped flags, grouped flags ending in a value option (-abcV, -abc V); "
               "for EVERY such token list of any length the parser returns exactly the intended pairs in order and leaves exactly the intended tokens in order. "
               "C13_cfg (Props/C13c.lean): a config file of `name = value` lines (any blanks around name, '=' and value; full name or unique prefix; empty values; values containing '='), continuation lines, '#' comment "
-              "lines and blank lines yields exactly the intended pairs in order. argc/argv rewriting is decided by model == real parsers and by the intended-list oracle on the implementation.")
-LEVEL_NOTE = ("Partial proof + correspondence (~6k quick / 150k thorough cases, each run as argv and as quoted command string, plus config files). Trusted: Lean kernel+axioms, "
+              "lines and blank lines yields exactly the intended pairs in order. "
+              "C13_remaining_sublist / C13_cmdline / C13_cmdline_in_place (Props/C13d.lean): for EVERY token list what is left over is a sub-list of the tokens given (same order, nothing invented); the entry point "
+              "parseCommandLine(argc, argv) — modelled on the cell vector name, tokens, null pointer, cells behind — for every caller count from 1 to the real one parses exactly the tokens and rewrites the vector to name, "
+              "remaining tokens, null pointer inside the cells that held tokens before (length unchanged, cells behind the old null pointer untouched) with argc = 1 + their number; "
+              "the harness prints the whole rewritten vector of the real call and compares it with the model and with an independently computed vector.")
+LEVEL_NOTE = ("Proof + correspondence (~6k quick / 150k thorough cases, each run as argv and as quoted command string, plus config files). Trusted: Lean kernel+axioms, "
               "std::isspace C locale, harness, generator/oracle in props/c13.py.")
 
 def hexs(b): return "-" if not b else "".join("%02x" % c for c in b)
@@ -170,7 +175,11 @@ def generate(ctx):
     out = []
     for _ in range(n):
         r = ctx.rng.random()
-        out.append(gen_intended(ctx.rng) if r < 0.6 else gen_raw(ctx.rng) if r < 0.85 else gen_cfg(ctx.rng))
+        c = gen_intended(ctx.rng) if r < 0.6 else gen_raw(ctx.rng) if r < 0.85 else gen_cfg(ctx.rng)
+        if c["kind"] != "cfg":
+            if ctx.rng.random() < 0.4: c["argc0"] = ctx.rng.randint(1, len(c["toks"]) + 1)
+            if ctx.rng.random() < 0.4: c["junk"] = [ctx.rng.choice([b"", b"--num=1", b"zz", b"--"]) for _ in range(ctx.rng.randint(1, 2))]
+        out.append(c)
     return out
 
 def head(c, mode): return "op %s %d %d %s %s" % (mode, c["allowU"], c["allowF"], hexs(b"pos") if c["pos"] else "~", " ".join(opt_tok(o) for o in c["opts"]))
@@ -182,7 +191,9 @@ def evaluate(ctx, cases):
         if c["kind"] == "cfg":
             lines.append(head(c, "c") + " F:" + hexs(c["text"])); meta.append((ci, "c"))
         else:
-            lines.append(head(c, "a") + "".join(" T:" + hexs(t) for t in c["toks"])); meta.append((ci, "a"))
+            # the argc/argv entry point: the caller's argc anywhere in 1..count (the code advances it to the null pointer), cells behind it
+            extra = (" N:%d" % c["argc0"] if c.get("argc0") else "") + "".join(" J:" + hexs(j) for j in c.get("junk", []))
+            lines.append(head(c, "a") + "".join(" T:" + hexs(t) for t in c["toks"]) + extra); meta.append((ci, "a"))
             cmd = b" ".join(quote(t) for t in c["toks"])
             lines.append(head(c, "s") + " S:" + hexs(cmd)); meta.append((ci, "s"))
     impl = ctx.impl(lines); model = ctx.model(lines)
@@ -199,6 +210,11 @@ def evaluate(ctx, cases):
             if len(c["pairs"]) >= 3: ctx.nontrivial(l)
             want_pairs = fmt_pairs(c["pairs"])
             want = want_pairs + "|R:" + (",".join(hexs(t) for t in c.get("rem", [])) if mode == "a" else "")
+            if mode == "a":
+                # independent oracle for the rewritten vector: name, remaining tokens, null pointer, then the old cells untouched
+                orig = [hexs(b"prog")] + [hexs(t) for t in c["toks"]] + ["~"] + [hexs(j) for j in c.get("junk", [])]
+                rem = [hexs(t) for t in c.get("rem", [])]
+                want += "|V:" + ",".join([orig[0]] + rem + ["~"] + orig[len(rem) + 2:])
             if i != want:
                 sig = "C13:argv-rewrite" if i.split("|")[0] == want_pairs and mode == "a" else "C13:pairs-%s" % {"a": "argv", "s": "cmdstring", "c": "cfgfile"}[mode]
                 ctx.fail(sig, "parsing (%s) does not return the intended (option, value) list / remaining arguments" % mode, {"line": l}, {"got": i[:600], "want": want[:600]})
